@@ -100,6 +100,8 @@ func (o Op) String() string {
 		return fmt.Sprintf("Prefix(%q).Remove(%q,[%s])", o.Ps[0], o.P, qjoin(o.Ms))
 	case "multi":
 		return fmt.Sprintf("Handle*(%s,[%s])", strings.Join(o.Ps, " "), qjoin(o.Ms))
+	case "reject":
+		return fmt.Sprintf("rejected-Handle(%q,[%s])", o.P, qjoin(o.Ms))
 	}
 	return o.K
 }
@@ -144,6 +146,10 @@ func ApplyImpl(r *Router, o Op) (any, bool) {
 			for _, p := range o.Ps {
 				r.Handle(p, hv.Route(HID(p, o.Ms)), nil, o.Ms...)
 			}
+		case "reject":
+			// a call the model rejects: its panic is the documented outcome and is swallowed here;
+			// the state it leaves behind is what the exploration continues from.
+			Guard(func() { r.Handle(o.P, hv.Route("h:rejected"), nil, o.Ms...) })
 		case "remove":
 			r.Remove(o.P, o.Ms...)
 		case "premove":
@@ -176,6 +182,9 @@ func Enabled(t *ref.Table, o Op) bool {
 			c.Handle(p, "", nil, o.Ms...)
 		}
 		return true
+	case "reject":
+		v, _ := t.Judge(o.P, o.Ms)
+		return v == ref.Reject
 	}
 	return true
 }
